@@ -355,57 +355,193 @@ func RestoreMainWaitGroup(c *core.Ctx, rule string) {
 // count to the shared offset.
 
 func AckGoroutineStopsOnError(c *core.Ctx, rule string) {
-	fn := c.Func(dbSync, "DbSyncer", "pSyncPipeCopy")
-	if fn == nil {
+	pk := c.Pkg(dbSync)
+	if pk == nil {
 		return
 	}
-	info := fn.Pkg.TypesInfo
-	n := 0
-	for _, lit := range core.FuncLits(fn.Decl.Body) {
-		g := cfgq.OfLit(c.Program, info, lit)
-		for _, p := range g.Points(func(nd ast.Node) bool {
-			for _, call := range cfgq.ExecCalls(nd) {
-				if f := core.CalleeFunc(info, call); f != nil && core.IsFunc(f, common, "", "SendPSyncAck") {
-					return true
-				}
-			}
-			return false
-		}) {
-			n++
-			// error edge: err != nil true
-			var errEdgeFrom *cfg.Block
-			okEdge := -1
-			for _, b := range g.CFG.Blocks {
-				if !b.Live || cfgq.CondOf(b) == nil {
-					continue
-				}
-				for si := range b.Succs {
-					if g.Establishes(b, si, func(f cfgq.Fact) bool {
-						return pat.Expr("_err != nil").Match(info, f.Expr, nil) != nil && f.Val || pat.Expr("_err == nil").Match(info, f.Expr, nil) != nil && !f.Val
-					}) && (b == p.B || reachable(g, p, b)) && containsOrFollows(p, b) {
-						errEdgeFrom, okEdge = b, si
-					}
-				}
-			}
-			if errEdgeFrom == nil {
-				c.Check(rule, fmt.Sprintf("pSyncPipeCopy/ack#%d/error-tested", n), p.Node().Pos(), false, "the error of SendPSyncAck is not tested")
+	info := pk.TypesInfo
+	// bodies of the package: declared functions and their literals
+	type body struct {
+		name string
+		obj  *types.Func
+		g    *cfgq.Graph
+		blk  *ast.BlockStmt
+		res  *types.Tuple
+	}
+	var bodies []body
+	for _, f := range pk.Syntax {
+		if core.IsTestFile(c.Fset, f) {
+			continue
+		}
+		for _, d := range f.Decls {
+			fd, ok := d.(*ast.FuncDecl)
+			if !ok || fd.Body == nil {
 				continue
 			}
-			from := cfgq.Point{B: errEdgeFrom.Succs[okEdge], I: 0}
-			again := g.Path(cfgq.Query{From: from, Target: func(nd ast.Node) bool {
-				for _, call := range cfgq.ExecCalls(nd) {
-					if f := core.CalleeFunc(info, call); f != nil && core.IsFunc(f, common, "", "SendPSyncAck") {
-						return true
+			fo, _ := info.Defs[fd.Name].(*types.Func)
+			if fo == nil {
+				continue
+			}
+			fn := c.FnOf(fo)
+			if fn == nil {
+				continue
+			}
+			bodies = append(bodies, body{fd.Name.Name, fo, cfgq.Of(c.Program, fn), fd.Body, fo.Type().(*types.Signature).Results()})
+			k := 0
+			core.InspectAll(fd.Body, func(n ast.Node) bool {
+				if lit, ok := n.(*ast.FuncLit); ok {
+					k++
+					var res *types.Tuple
+					if sig, ok := info.TypeOf(lit).(*types.Signature); ok {
+						res = sig.Results()
 					}
+					bodies = append(bodies, body{fmt.Sprintf("%s$lit%d", fd.Name.Name, k), nil, cfgq.OfLit(c.Program, info, lit), lit.Body, res})
 				}
-				return false
-			}})
-			c.Check(rule, fmt.Sprintf("pSyncPipeCopy/ack#%d/stops-on-error", n), p.Node().Pos(), again == nil,
-				"after a failed REPLCONF ACK the goroutine must end: bufio.Writer errors are sticky, so a goroutine that keeps ticking on the dead link keeps adding that link's byte count to ds.sourceOffset and the offsets acknowledged on the new link run ahead of what was received", again...)
+				return true
+			})
 		}
 	}
-	if n == 0 {
-		c.Undecidedf(rule, "pSyncPipeCopy/ack", fn.Decl.Pos(), "no SendPSyncAck call found in a goroutine of pSyncPipeCopy")
+	// ack functions: SendPSyncAck, and package functions that wrap an ack and
+	// report its failure through an error or a bool result
+	const (
+		kindErr  = 1
+		kindBool = 2
+	)
+	ackKind := map[*types.Func]int{}
+	isAck := func(call *ast.CallExpr) (int, bool) {
+		f := core.CalleeFunc(info, call)
+		if f == nil {
+			return 0, false
+		}
+		if core.IsFunc(f, common, "", "SendPSyncAck") {
+			return kindErr, true
+		}
+		k, ok := ackKind[f.Origin()]
+		return k, ok
+	}
+	acksIn := func(nd ast.Node) []*ast.CallExpr {
+		var out []*ast.CallExpr
+		for _, call := range cfgq.ExecCalls(nd) {
+			if _, ok := isAck(call); ok {
+				out = append(out, call)
+			}
+		}
+		return out
+	}
+	total := 0
+	reported := map[string]bool{}
+	for round := 0; round < 4; round++ {
+		changed := false
+		for _, bd := range bodies {
+			g := bd.g
+			n := 0
+			wraps, propagates := false, true
+			for _, p := range g.Points(func(nd ast.Node) bool { return len(acksIn(nd)) > 0 }) {
+				for _, call := range acksIn(p.Node()) {
+					n++
+					wraps = true
+					kind, _ := isAck(call)
+					key := fmt.Sprintf("%s/ack#%d", bd.name, n)
+					// a plain forwarder: `return ack(...)`
+					if ret, ok := p.Node().(*ast.ReturnStmt); ok && len(ret.Results) == 1 && ast.Unparen(ret.Results[0]) == ast.Expr(call) {
+						if bd.obj != nil && ackKind[bd.obj] == 0 {
+							ackKind[bd.obj] = kind
+							changed = true
+						}
+						continue
+					}
+					// failure edges of this call
+					type edge struct {
+						b  *cfg.Block
+						si int
+					}
+					var fails []edge
+					for _, b := range g.CFG.Blocks {
+						if !b.Live || cfgq.CondOf(b) == nil || !(b == p.B || reachable(g, p, b)) || !containsOrFollows(p, b) {
+							continue
+						}
+						for si := range b.Succs {
+							if g.Establishes(b, si, func(f cfgq.Fact) bool {
+								e := ast.Unparen(f.Expr)
+								switch kind {
+								case kindErr:
+									return pat.Expr("_err != nil").Match(info, e, nil) != nil && f.Val || pat.Expr("_err == nil").Match(info, e, nil) != nil && !f.Val
+								default:
+									if e == ast.Expr(call) {
+										return !f.Val
+									}
+									if id, ok := e.(*ast.Ident); ok {
+										if d := pat.DefOf(info, id); d != nil && ast.Unparen(d) == ast.Expr(call) {
+											return !f.Val
+										}
+									}
+								}
+								return false
+							}) {
+								fails = append(fails, edge{b, si})
+							}
+						}
+					}
+					if len(fails) == 0 {
+						propagates = false
+						if !reported[key+"/error-tested"] {
+							reported[key+"/error-tested"] = true
+							c.Check(rule, key+"/error-tested", call.Pos(), false, "the failure of the REPLCONF ACK is not tested")
+						}
+						continue
+					}
+					for _, fe := range fails {
+						from := cfgq.Point{B: fe.b.Succs[fe.si], I: 0}
+						again := g.Path(cfgq.Query{From: from, Target: func(nd ast.Node) bool { return len(acksIn(nd)) > 0 }})
+						if !reported[key+"/stops-on-error"] || again != nil {
+							reported[key+"/stops-on-error"] = true
+							c.Check(rule, key+"/stops-on-error", call.Pos(), again == nil,
+								"after a failed REPLCONF ACK the goroutine must end: bufio.Writer errors are sticky, so a goroutine that keeps ticking on the dead link keeps adding that link's byte count to ds.sourceOffset and the offsets acknowledged on the new link run ahead of what was received", again...)
+						}
+						// does the failure reach the caller? every return after the failure edge
+						// returns false / a non-nil error
+						if bd.res == nil || bd.res.Len() == 0 {
+							propagates = false
+							continue
+						}
+						bad := g.Path(cfgq.Query{From: from, Target: func(nd ast.Node) bool {
+							ret, ok := nd.(*ast.ReturnStmt)
+							if !ok || len(ret.Results) == 0 {
+								return ok
+							}
+							last := ast.Unparen(ret.Results[len(ret.Results)-1])
+							if tv, ok := info.Types[last]; ok && tv.Value != nil {
+								return tv.Value.String() != "false"
+							}
+							return core.IsNil(info, last)
+						}, TargetExit: func(b *cfg.Block, k cfgq.ExitKind) bool { return k == cfgq.ExitFall }})
+						if bad != nil {
+							propagates = false
+						}
+					}
+				}
+			}
+			if round == 0 {
+				total += n
+			}
+			if wraps && propagates && bd.obj != nil && ackKind[bd.obj] == 0 && bd.res != nil && bd.res.Len() > 0 {
+				last := bd.res.At(bd.res.Len() - 1).Type()
+				switch {
+				case cfgq.IsErrorType(last):
+					ackKind[bd.obj] = kindErr
+					changed = true
+				case types.Identical(last.Underlying(), types.Typ[types.Bool]):
+					ackKind[bd.obj] = kindBool
+					changed = true
+				}
+			}
+		}
+		if !changed {
+			break
+		}
+	}
+	if total == 0 {
+		c.Undecidedf(rule, "pSyncPipeCopy/ack", token.NoPos, "no SendPSyncAck call found in package dbSync")
 	}
 }
 
@@ -504,19 +640,29 @@ func CheckpointHsetsSameKey(c *core.Ctx, rule string) {
 	n := 0
 	ast.Inspect(fn.Decl.Body, func(nd ast.Node) bool {
 		call, ok := nd.(*ast.CallExpr)
-		if !ok || len(call.Args) < 3 {
+		if !ok {
 			return true
 		}
-		if s, ok := core.StringConst(info, call.Args[0]); !ok || !strings.EqualFold(s, "hset") {
+		// Send("hset", key, ...) directly or through a forwarding helper that takes
+		// the command name as one of its arguments: the key follows the name
+		ci := -1
+		for i, a := range call.Args {
+			if s, ok := core.StringConst(info, a); ok && strings.EqualFold(s, "hset") {
+				ci = i
+				break
+			}
+		}
+		if ci < 0 || ci+2 >= len(call.Args) {
 			return true
 		}
-		if sel, ok := call.Fun.(*ast.SelectorExpr); !ok || sel.Sel.Name != "Send" {
+		if _, isConv := info.Types[call.Fun]; isConv && info.Types[call.Fun].IsType() {
 			return true
 		}
 		n++
-		ok2 := pat.Expr("_ds.checkpointName").Match(info, call.Args[1], nil) != nil
+		key := call.Args[ci+1]
+		ok2 := pat.Expr("_ds.checkpointName").Match(info, key, nil) != nil
 		c.Check(rule, fmt.Sprintf("sendFunc/hset#%d/key", n), call.Pos(), ok2,
-			fmt.Sprintf("checkpoint HSET writes into `%s`; all checkpoint fields must go into ds.checkpointName, the hash LoadCheckpoint reads (for a cluster shard it carries a slot suffix): a field written elsewhere is not read back, e.g. the version is read as 0 and the checkpoint refused", c.Src(call.Args[1])))
+			fmt.Sprintf("checkpoint HSET writes into `%s`; all checkpoint fields must go into ds.checkpointName, the hash LoadCheckpoint reads (for a cluster shard it carries a slot suffix): a field written elsewhere is not read back, e.g. the version is read as 0 and the checkpoint refused", c.Src(key)))
 		return true
 	})
 	if n < 3 {
@@ -693,48 +839,76 @@ func FetchLoopReachesEndNode(c *core.Ctx, rule string) {
 // a failed attempt then overwrite.
 
 func FreshSlaves(c *core.Ctx, rule string) {
-	fn := c.Func("redis-shake/dbSync/slotsupervisor", "slotSupervisor", "recursiveGetSlotState")
-	if fn == nil {
+	pk := c.Pkg("redis-shake/dbSync/slotsupervisor")
+	if pk == nil {
 		return
 	}
-	info := fn.Pkg.TypesInfo
-	// the local copy: `newSlot := s.slot`
-	cp, b := pat.Stmt("_new = _s.slot").Find(info, fn.Decl.Body, nil)
-	if cp == nil {
-		c.Undecidedf(rule, "recursiveGetSlotState/copy", fn.Decl.Pos(), "no local copy of s.slot found")
-		return
-	}
-	var reset *ast.AssignStmt
-	var loopPos token.Pos
-	for _, st := range fn.Decl.Body.List {
-		if as, ok := st.(*ast.AssignStmt); ok && len(as.Lhs) == 1 && pat.Expr("_new.Slaves").Match(info, as.Lhs[0], b) != nil && loopPos == token.NoPos {
-			reset = as
+	info := pk.TypesInfo
+	copies, appends := 0, 0
+	for _, f := range pk.Syntax {
+		if core.IsTestFile(c.Fset, f) {
+			continue
 		}
-		if _, ok := st.(*ast.RangeStmt); ok && loopPos == token.NoPos {
-			loopPos = st.Pos()
-		}
-		if _, ok := st.(*ast.ForStmt); ok && loopPos == token.NoPos {
-			loopPos = st.Pos()
+		for _, d := range f.Decls {
+			fd, ok := d.(*ast.FuncDecl)
+			if !ok || fd.Body == nil {
+				continue
+			}
+			fo, _ := info.Defs[fd.Name].(*types.Func)
+			fn := c.FnOf(fo)
+			if fn == nil {
+				continue
+			}
+			// the local copy of the supervisor's topology: `newSlot := s.slot`
+			for _, cp := range pat.Stmt("_new = _s.slot").FindAll(info, fd.Body, nil) {
+				b := pat.Stmt("_new = _s.slot").Match(info, cp, nil)
+				if _, isId := ast.Unparen(b["_new"].(ast.Expr)).(*ast.Ident); !isId {
+					continue
+				}
+				copies++
+				g := cfgq.Of(c.Program, fn)
+				isFreshReset := func(n ast.Node) bool {
+					as, ok := n.(*ast.AssignStmt)
+					if !ok || len(as.Lhs) != 1 || len(as.Rhs) != 1 || pat.Expr("_new.Slaves").Match(info, as.Lhs[0], b) == nil {
+						return false
+					}
+					switch x := ast.Unparen(as.Rhs[0]).(type) {
+					case *ast.CompositeLit:
+						return true
+					case *ast.CallExpr:
+						bi, ok := core.Callee(info, x).(*types.Builtin)
+						return ok && bi.Name() == "make"
+					case *ast.Ident:
+						return core.IsNil(info, x)
+					}
+					return false
+				}
+				// every append to the copy's Slaves needs a fresh list first
+				for _, p := range g.Points(func(n ast.Node) bool {
+					hit := false
+					core.Inspect(n, func(m ast.Node) bool {
+						if call, ok := m.(*ast.CallExpr); ok && len(call.Args) > 0 {
+							if bi, ok := core.Callee(info, call).(*types.Builtin); ok && bi.Name() == "append" && pat.Expr("_new.Slaves").Match(info, call.Args[0], b) != nil {
+								hit = true
+							}
+						}
+						return !hit
+					})
+					return hit
+				}) {
+					appends++
+					ok, w := g.Dominated(p, isFreshReset)
+					c.Check(rule, fd.Name.Name+"/fresh-slaves", p.Node().Pos(), ok,
+						"the copied topology keeps the supervisor's own Slaves slice (no `copy.Slaves = []string{}`/make/nil before this append): a re-slice or the copied field shares the backing array with s.slot.Slaves, so the appends of an attempt overwrite the supervisor's list of known nodes and a retry probes the wrong hosts (a node is lost, the master may never be probed)", w...)
+				}
+			}
 		}
 	}
-	if reset == nil {
-		c.Failf(rule, "recursiveGetSlotState/fresh-slaves", cp.Pos(), "the copied topology keeps the supervisor's own Slaves slice: appending to it overwrites s.slot.Slaves in place, so after a failed attempt the list of known nodes is corrupted for the retry")
-		return
+	if copies == 0 {
+		c.Undecidedf(rule, "recursiveGetSlotState/copy", token.NoPos, "no local copy of s.slot found in package slotsupervisor")
+	} else if appends == 0 {
+		c.Undecidedf(rule, "recursiveGetSlotState/appends", token.NoPos, "the copy of s.slot is never appended to: the rule does not recognise how the replica list is rebuilt")
 	}
-	rhs := ast.Unparen(reset.Rhs[0])
-	fresh := false
-	switch x := rhs.(type) {
-	case *ast.CompositeLit:
-		fresh = true
-	case *ast.CallExpr:
-		if bi, ok := core.Callee(info, x).(*types.Builtin); ok && bi.Name() == "make" {
-			fresh = true
-		}
-	case *ast.Ident:
-		fresh = core.IsNil(info, x)
-	}
-	c.Check(rule, "recursiveGetSlotState/fresh-slaves", reset.Pos(), fresh,
-		fmt.Sprintf("`%s` does not give the new topology its own replica list: a re-slice shares the backing array with s.slot.Slaves, so the appends of an attempt overwrite the supervisor's list of known nodes and a retry probes the wrong hosts (a node is lost, the master may never be probed)", c.Src(reset)))
 }
 
 // ---------------------------------------------------------------------------
